@@ -245,6 +245,10 @@ def main():
             for t in fails:
                 lab = t["label"]
                 is_role = lab.startswith("C") and lab[1:3].isdigit() and "." in lab
+                if is_role and not lab.startswith(pid + "."):
+                    # a harness borrowed from another property (e.g. C03 reusing C12's parser harness for its panic
+                    # checks): that property's own assertions are decided by its own check
+                    continue
                 outs = {}
                 for prof in ("dev", "release"):
                     outs[prof] = kani.native_replay(short, t["vals"], prof)
